@@ -943,13 +943,18 @@ where
     F: Fn(&essential_types::predicate::Node) -> bool,
 {
     let mut deferred = HashSet::new();
-    for (ix, node) in predicate.nodes.iter().enumerate() {
-        if is_deferred(node) {
-            deferred.insert(ix as u16);
+    // Start from the nodes that are deferred themselves.
+    let mut pending: Vec<u16> = Vec::new();
+    for ix in 0..predicate.nodes.len() {
+        if is_deferred(&predicate.nodes[ix]) {
+            pending.push(ix as u16);
         }
-        if deferred.contains(&(ix as u16)) {
-            for child in predicate.node_edges(ix).expect("Already checked") {
-                deferred.insert(*child);
+    }
+    // Every descendant of a deferred node is deferred, however the nodes are numbered.
+    while let Some(ix) = pending.pop() {
+        if deferred.insert(ix) {
+            for child in predicate.node_edges(ix as usize).expect("Already checked") {
+                pending.push(*child);
             }
         }
     }
